@@ -5,7 +5,10 @@
    (Gen_tags.config_schema, regenerated from the real struct tags on every run) and
    [cmd o a c w cfg] the generate commands; [o] stands for the string predicates of
    go-playground/validator and gleece's custom validators: every theorem holds for ALL
-   oracles, all schemas [a] meeting the per-run obligation
+   oracles that keep the enum claims ([enum_sound o]: the two custom enum validators accept
+   nothing outside the exactly spelled enumeration; the check evaluates the claim on every
+   string it asks the real validator about, case variants of the legal values included;
+   [C20_enum_claim_needed] shows what happens without it), all schemas [a] meeting the per-run obligation
    [schema_at_least declared_schema a = true], all JSON documents and all worlds
    (existing files and their modes, umask, project files, glob matcher, success of the
    analysis and of the spec library). *)
@@ -26,13 +29,13 @@ Proof. exact violatesb_spec. Qed.
    declared one refuses every document that violates the declared one *)
 Theorem C20_schema_at_least_sound : forall d a,
   schema_at_least d a = true ->
-  forall o cfg, violates o d cfg -> validate o a cfg <> Valid.
+  forall o cfg, enum_sound o -> violates o d cfg -> validate o a cfg <> Valid.
 Proof. exact schema_at_least_sound. Qed.
 
 (* ... and its validation message names every violated field *)
 Theorem C20_names_fields : forall d a,
   schema_at_least d a = true ->
-  forall o cfg errs, validate o a cfg = Invalid errs ->
+  forall o cfg errs, enum_sound o -> validate o a cfg = Invalid errs ->
   forall ed, In ed (violated_entries o d cfg) -> In (name_in a ed) (map fst errs).
 Proof. exact schema_at_least_names. Qed.
 
@@ -45,7 +48,7 @@ Proof. exact cmd_rejects. Qed.
 
 (* the first sentence of the property, for the declared constraints the tag language expresses *)
 Theorem C20_reject_declared : forall a, schema_at_least declared_schema a = true ->
-  forall o c w cfg, violates o declared_schema cfg ->
+  forall o c w cfg, enum_sound o -> violates o declared_schema cfg ->
   exists v, cmd o a c w cfg = Rejected v /\ v <> Valid /\
             written (cmd o a c w cfg) = [] /\ analysis_started (cmd o a c w cfg) = false /\
             (forall errs, v = Invalid errs ->
@@ -68,7 +71,7 @@ Theorem C20_honoured_routes : forall o a c w cfg arts r,
     (match str_at [k_routes; s "packageName"] cfg with [] => s "routes" | p => p end) /\
   attr (s "engine") (a_attrs r) = engine_import (str_at [k_routes; s "engine"] cfg) /\
   attr (s "auth") (a_attrs r) = str_at [k_routes; k_auth; s "authFileFullPackageName"] cfg /\
-  a_ctrls r = flat_map snd (filter (fun f => w_glob w (globs_of cfg) (fst f)) (w_files w)).
+  a_ctrls r = flat_map snd (filter (fun f => glob_hit w (globs_of cfg) (fst f)) (w_files w)).
 Proof. exact honoured_routes_readable. Qed.
 
 Theorem C20_honoured_spec : forall o a c w cfg arts p,
@@ -80,7 +83,7 @@ Theorem C20_honoured_spec : forall o a c w cfg arts p,
   (forall e, In e (survivors (scheme_elems cfg)) ->
      exists sc, In sc (a_schemes p) /\ fst sc = scheme_name e /\ copied scheme_copy_table (norm e) (snd sc) = true) /\
   (forall sc, In sc (a_schemes p) -> In (fst sc) (map scheme_name (scheme_elems cfg))) /\
-  a_ctrls p = flat_map snd (filter (fun f => w_glob w (globs_of cfg) (fst f)) (w_files w)).
+  a_ctrls p = flat_map snd (filter (fun f => glob_hit w (globs_of cfg) (fst f)) (w_files w)).
 Proof. exact honoured_spec_readable. Qed.
 
 (* The oracle evaluated on the real CLI's behaviour holds of the model.
@@ -91,13 +94,75 @@ Proof. exact honoured_spec_readable. Qed.
    ([cross_ok]: apiKey has in+fieldName, http has scheme, oauth2 has flows, openIdConnect
    has its URL, defaultSecurity names a declared scheme). *)
 Theorem C20_holds_partial : forall a, schema_at_least declared_schema a = true ->
-  forall o c w cfg, cross_ok cfg = true ->
+  forall o c w cfg, enum_sound o -> cross_ok cfg = true ->
   prop_C20 o a c w cfg (observe (cmd o a c w cfg)) = true.
 Proof. exact prop_holds_partial. Qed.
 
 Theorem C20_load_holds_partial : forall a, schema_at_least declared_schema a = true ->
-  forall o cfg, cross_ok cfg = true -> prop_C20_load o a cfg (validate o a cfg) = true.
+  forall o cfg, enum_sound o -> cross_ok cfg = true -> prop_C20_load o a cfg (validate o a cfg) = true.
 Proof. exact load_holds_partial. Qed.
+
+(* the enum claim: meaning of what the check evaluates, and that it follows from the hypothesis *)
+Theorem C20_enum_sound_on_spec : forall o vals,
+  enum_sound_on o vals = true <->
+  forall n p alts v, In (n, p, alts) enum_claims -> In v vals -> o n p v = true -> In v alts.
+Proof. exact enum_sound_on_spec. Qed.
+
+Theorem C20_enum_sound_on_all : forall o, enum_sound o -> forall vals, enum_sound_on o vals = true.
+Proof. exact enum_sound_on_all. Qed.
+
+(* the hypothesis is satisfiable ... *)
+Example C20_enum_sound_demo : enum_sound demo_oracle.
+Proof. exact demo_oracle_enum_sound. Qed.
+
+(* ... and needed: a validator comparing the scheme type without regard to case lets the
+   document with type "ApiKey" through; the routes file is written before the spec fails *)
+Theorem C20_enum_claim_needed :
+  schema_at_least declared_schema snapshot_schema = true /\
+  enum_sound_on lax_oracle [s "apiKey"; s "ApiKey"] = false /\
+  enum_sound_on demo_oracle [s "apiKey"; s "ApiKey"; s "HTTP"; s "Header"; s "header"; []] = true /\
+  violatesb lax_oracle declared_schema demo_cfg_case_variant = true /\
+  cross_ok demo_cfg_case_variant = true /\
+  validate lax_oracle snapshot_schema demo_cfg_case_variant = Valid /\
+  map a_kind (written (cmd lax_oracle snapshot_schema CBoth bad_world demo_cfg_case_variant)) = [ARoutes] /\
+  prop_C20 lax_oracle snapshot_schema CBoth bad_world demo_cfg_case_variant
+           (observe (cmd lax_oracle snapshot_schema CBoth bad_world demo_cfg_case_variant)) = false /\
+  validate demo_oracle snapshot_schema demo_cfg_case_variant = Invalid [(s "Type", s "security_schema_type")].
+Proof. exact enum_claim_needed. Qed.
+
+(* "only files matched by controllerGlobs contribute controllers": a controller is in the
+   artifacts exactly when its file is matched by SOME expression of the list ... *)
+Theorem C20_selected_ctrls : forall w cfg c,
+  In c (selected_ctrls w cfg) <->
+  exists f cs g, In (f, cs) (w_files w) /\ In c cs /\ In g (globs_of cfg) /\ w_glob w g f = true.
+Proof. exact selected_ctrls_spec. Qed.
+
+Theorem C20_done_ctrls : forall o a c w cfg arts x,
+  cmd o a c w cfg = Done arts -> In x arts -> a_ctrls x = selected_ctrls w cfg.
+Proof. exact done_ctrls. Qed.
+
+(* ... whatever the order and multiplicity of the expressions, and whatever else the other
+   expressions matched (e.g. other files of the same directory): a further expression
+   before or after never removes a file *)
+Theorem C20_globs_order_irrelevant : forall w gs gs' f,
+  (forall g, In g gs <-> In g gs') -> glob_hit w gs f = glob_hit w gs' f.
+Proof. exact glob_hit_set. Qed.
+
+Theorem C20_globs_monotone : forall w gs before after f,
+  glob_hit w gs f = true -> glob_hit w (before ++ gs ++ after) f = true.
+Proof. exact glob_hit_mono. Qed.
+
+Example C20_split_globs_nonvacuous :
+  let sel gs := selected_ctrls demo_world (with_globs gs) in
+  sel ["./ctl/main.controller.go"; "./ctl/decoy.controller.go"]%string = [s "MainController"; s "DecoyController"] /\
+  sel ["./ctl/decoy.controller.go"; "./ctl/main.controller.go"]%string = [s "MainController"; s "DecoyController"] /\
+  sel ["./ctl/decoy.controller.go"]%string = [s "DecoyController"] /\
+  sel ["./nomatch.go"; "./ctl/decoy.controller.go"; "./ctl/decoy.controller.go"]%string = [s "DecoyController"] /\
+  map (fun a => a_ctrls a)
+      (written (cmd demo_oracle snapshot_schema CBoth demo_world
+                    (with_globs ["./ctl/decoy.controller.go"; "./ctl/main.controller.go"]%string))) =
+    [[s "MainController"; s "DecoyController"]; [s "MainController"; s "DecoyController"]].
+Proof. exact split_globs_nonvacuous. Qed.
 
 (* finding C20-scheme-shape: an apiKey scheme without location and field name is accepted by the validation;
    spec-and-routes then writes the routes file before the spec generator fails *)
@@ -120,7 +185,7 @@ Proof. exact perms_unfixed_refuted. Qed.
    file existed with 0644; the fresh spec gets 0644 under umask 022) and only the
    controller matched by the glob; each kind of corruption (missing section, missing field,
    unknown engine, unknown version, bad URL, bad e-mail, bad permission string, malformed
-   security scheme, non-object document) is refused, violates the declared schema (or its
+   security scheme, case variants of a scheme type / location / engine, non-object document) is refused, violates the declared schema (or its
    types) and leaves nothing written *)
 Example C20_obligation_on_snapshot : schema_at_least declared_schema snapshot_schema = true.
 Proof. exact snapshot_at_least. Qed.
@@ -147,6 +212,15 @@ Print Assumptions C20_honoured_routes.
 Print Assumptions C20_honoured_spec.
 Print Assumptions C20_holds_partial.
 Print Assumptions C20_load_holds_partial.
+Print Assumptions C20_enum_sound_on_spec.
+Print Assumptions C20_enum_sound_on_all.
+Print Assumptions C20_enum_sound_demo.
+Print Assumptions C20_enum_claim_needed.
+Print Assumptions C20_selected_ctrls.
+Print Assumptions C20_done_ctrls.
+Print Assumptions C20_globs_order_irrelevant.
+Print Assumptions C20_globs_monotone.
+Print Assumptions C20_split_globs_nonvacuous.
 Print Assumptions C20_scheme_shape_refuted.
 Print Assumptions C20_perms_unfixed_refuted.
 Print Assumptions C20_obligation_on_snapshot.
